@@ -587,6 +587,13 @@ func (w *world) exec(i int, st Step) {
 			var params any = map[string]int{"p": st.K}
 			if st.Out == "badparams" {
 				params = map[string]any{"p": st.K, "x": make(chan int)} // cannot be marshalled
+			} else if st.Out == "bigparams" {
+				// parameters whose encoding is a few hundred bytes long, numbers mostly
+				pad := make([]int, 60)
+				for i := range pad {
+					pad[i] = 100001 + i*st.K
+				}
+				params = map[string]any{"p": st.K, "pad": pad}
 			} else if st.Out == "rawparams" {
 				// parameters the caller has encoded already, the way an indenting encoder writes them
 				params = json.RawMessage(fmt.Sprintf("{\n\t\"p\": %d\n}\n", st.K))
